@@ -297,11 +297,17 @@ class Scheduler:
         if proc is None:
             return
 
-        proc.kill()
-        await asyncio.sleep(1)
-        if proc.returncode is None:
-            await asyncio.sleep(10)
-            proc.terminate()
+        try:
+            proc.kill()
+            await asyncio.sleep(1)
+            if proc.returncode is None:
+                await asyncio.sleep(10)
+                proc.terminate()
+        except ProcessLookupError:
+            # The process is already gone (it exited on its own just as the
+            # time limit expired or the cancel arrived, or it died in the
+            # grace period).
+            pass
         await proc.wait()
 
     async def try_handle_task(self, tid, name, script, working_dir, time_limit, deps):
@@ -358,6 +364,12 @@ class Scheduler:
             await self._gentle_kill(proc)
             self.task_states[tid] = LocalStatus.KILLED
         except TaskFailedError:
+            self.task_states[tid] = LocalStatus.FAILED
+        except Exception:
+            # The process could not be started (e.g. missing working
+            # directory), the log files could not be written, or a dependency
+            # id is unknown. The task must still reach a final state.
+            logger.exception("task %s failed unexpectedly", name)
             self.task_states[tid] = LocalStatus.FAILED
         else:
             self.task_states[tid] = LocalStatus.COMPLETED
